@@ -50,8 +50,10 @@ def run(ctx):
     def same(a, b, exact):
         if a is None or b is None or tuple(a.shape) != tuple(b.shape):
             return False
-        if exact:
+        if exact is True:
             return torch.equal(a.to(torch.float64) if not torch.is_complex(a) else a, b.to(torch.float64) if not torch.is_complex(b) else b)
+        if isinstance(exact, float):             # iterated float32 arithmetic (tanh/atanh): batched and single kernels round differently
+            return torch.allclose(a, b.to(a.dtype), rtol=exact, atol=exact, equal_nan=True)
         return torch.allclose(a, b.to(a.dtype), rtol=2e-5, atol=1e-7, equal_nan=True)
 
     def check(name, cls, f, items, exact=True, n_in=None, multiblock=True, nested=True, one_d=True, kw=None, fresh=None):
@@ -124,7 +126,7 @@ def run(ctx):
                         name, B, list(pi), j, out[j].reshape(-1).tolist()[:10] if tuple(out.shape) == tuple(exp.shape) else "shape %s" % (tuple(out.shape),), exp[j].reshape(-1).tolist()[:10]), dict(rep, batch=list(pi)))
                     return
         # the same members held in other dtypes (binary-valued inputs only): same answer on two passes, input left alone
-        if exact and all(set(it.reshape(-1).tolist()) <= {0.0, 1.0} for it in items):
+        if exact is True and all(set(it.reshape(-1).tolist()) <= {0.0, 1.0} for it in items):
             for dt in (torch.int32, torch.int64, torch.float64):
                 xin = torch.stack(items[: min(4, len(items))]).to(dt)
                 x0 = xin.clone()
@@ -174,7 +176,7 @@ def run(ctx):
                         name, len(groups[0]), out.reshape(-1).tolist()[:16] if out is not None else None, exp.reshape(-1).tolist()[:16]), dict(rep, groups=groups))
                     break
                 # T: the layout law evaluated by the kernel on the component's own single-block answers
-                if exact and n_in and len(exprs) < (150 if quick else 1500) and all(set(singles[i].reshape(-1).tolist()) <= {0, 1, 0.0, 1.0} for i in range(len(items))) and all(set(items[i].tolist()) <= {0.0, 1.0} for i in range(len(items))):
+                if exact is True and n_in and len(exprs) < (150 if quick else 1500) and all(set(singles[i].reshape(-1).tolist()) <= {0, 1, 0.0, 1.0} for i in range(len(items))) and all(set(items[i].tolist()) <= {0.0, 1.0} for i in range(len(items))):
                     bl = lambda t: clist([bool(v) for v in t.reshape(-1).tolist()], cbool)      # noqa: E731
                     tbl = "[" + "; ".join("(%s, %s)" % (bl(items[i]), bl(singles[i])) for i in sorted({i for g in groups for i in g})) + "]"
                     rows = "[" + "; ".join(bl(r) for r in x) + "]"
@@ -299,6 +301,46 @@ def run(ctx):
             check("%s near-duplicate words (message and error pattern)" % cname, "%s/decode-near-duplicates" % type(dec).__name__, both, recv, exact=True, multiblock=False, nested=False, one_d=False, fresh=fresh_both)
         except Exception:
             pass
+    # iterative soft decoders: members of unequal reliability (some settle in one iteration, some never do), hard and soft outputs
+    H155 = torch.zeros(10, 15)
+    for r_ in range(5):
+        for c_ in (r_, (r_ + 1) % 5, 5 + r_, 5 + (r_ + 2) % 5, 10 + r_):
+            H155[r_, c_] = 1
+        for c_ in (r_, (r_ + 3) % 5, 5 + (r_ + 1) % 5, 10 + (r_ + 4) % 5, 10 + (r_ + 2) % 5):
+            H155[5 + r_, c_] = 1
+    for cname, mk, dmks in (("LDPC(6,3)", lambda: E.LDPCCodeEncoder(check_matrix=H63), [("BeliefPropagationDecoder", lambda e: D.BeliefPropagationDecoder(e, bp_iters=10)), ("MinSumLDPCDecoder", lambda e: D.MinSumLDPCDecoder(e, bp_iters=10))]),
+                            ("LDPC(15,circulant)", lambda: E.LDPCCodeEncoder(check_matrix=H155), [("BeliefPropagationDecoder", lambda e: D.BeliefPropagationDecoder(e, bp_iters=6)), ("MinSumLDPCDecoder", lambda e: D.MinSumLDPCDecoder(e, bp_iters=6, normalized=True, scaling_factor=0.8))]),
+                            ("Polar(4,8)", lambda: E.PolarCodeEncoder(4, 8), [("BeliefPropagationPolarDecoder", lambda e: D.BeliefPropagationPolarDecoder(e, bp_iters=10)), ("BeliefPropagationPolarDecoder[early_stop]", lambda e: D.BeliefPropagationPolarDecoder(e, bp_iters=10, early_stop=True)),
+                                                                          ("SuccessiveCancellationDecoder", lambda e: D.SuccessiveCancellationDecoder(e))])):
+        try:
+            enc = quiet(mk)
+        except Exception as ex:
+            ctx.note("%s: constructor raised %s" % (cname, str(ex)[:60]))
+            continue
+        n, k = int(enc.code_length), int(enc.code_dimension)
+        for dname, dmk in dmks:
+            try:
+                dec = quiet(dmk, enc)
+            except Exception as ex:
+                ctx.note("%s %s: constructor raised %s" % (cname, dname, str(ex)[:60]))
+                continue
+            for rnd in range(6 if quick else 60):
+                msgs = [torch.tensor(fec.int_to_bits(rng.getrandbits(k), k), dtype=torch.float32) for _ in range(6)]
+                cws = [quiet(enc, m.unsqueeze(0))[0] for m in msgs]
+                # quarter-step LLRs: member j is received at noise level sigma_j (clean, mild, ..., hopeless)
+                recv = [torch.tensor([round(4 * ((1 - 2 * float(b)) * 2.0 + sg * rng.gauss(0, 1))) / 4 for b in c]) for c, sg in zip(cws, (0.0, 0.5, 1.0, 1.5, 2.0, 3.0))]
+                rng.shuffle(recv)
+                nm = "%s %s noisy round %d" % (cname, dname, rnd)
+                check(nm, "%s/decode-noisy" % dname.split("[")[0], dec, recv, exact=True, multiblock=(rnd == 0), nested=(rnd == 0), one_d=(rnd == 0))
+                if "BeliefPropagationDecoder" == dname or dname == "MinSumLDPCDecoder":
+                    def soft(x, dec=dec):
+                        o = dec(x, return_soft=True)
+                        return torch.cat([o[0].to(torch.float32), o[1].to(torch.float32)], dim=-1)
+                    try:
+                        quiet(soft, recv[0].unsqueeze(0))
+                    except Exception:
+                        continue
+                    check(nm + " (return_soft)", "%s/decode-noisy-soft" % dname, soft, recv, exact=1e-3, multiblock=False, nested=False, one_d=False)
     ctx.log("codes done", len(exprs))
 
     # ------------------------------------------------------------------ modulators / demodulators
